@@ -102,3 +102,17 @@ func (s *Session) VerifControlConn() *Conn {
 	}
 	return ch.conn
 }
+
+// VerifCallStreams returns the stream ids that currently have a registered call.
+func (c *Conn) VerifCallStreams() []int {
+	c.mu.Lock()
+	defer c.mu.Unlock()
+	out := make([]int, 0, len(c.calls))
+	for id := range c.calls {
+		out = append(out, id)
+	}
+	return out
+}
+
+// VerifStreamsState renders the allocator's bitmap (IDGenerator.String()).
+func (c *Conn) VerifStreamsState() string { return c.streams.String() }
